@@ -668,8 +668,18 @@ func FetchWithParallelRangeRequests(client *http.Client, rawURL string, cfg *Fet
 		return nil, fmt.Errorf("content too large: %d bytes exceeds max %d", contentLength, cfg.MaxFetchBytes)
 	}
 
-	// Compute chunks
-	numChunks := int(math.Ceil(float64(contentLength) / float64(cfg.ChunkSizeBytes)))
+	// Compute chunks. Non-positive limits fall back to the defaults: a zero
+	// chunk size has no chunk count and a zero-capacity semaphore admits no
+	// request at all.
+	chunkSize := cfg.ChunkSizeBytes
+	if chunkSize <= 0 {
+		chunkSize = DefaultFetchConfig().ChunkSizeBytes
+	}
+	maxParallel := cfg.MaxParallelRequests
+	if maxParallel <= 0 {
+		maxParallel = DefaultFetchConfig().MaxParallelRequests
+	}
+	numChunks := int(math.Ceil(float64(contentLength) / float64(chunkSize)))
 	type chunkResult struct {
 		index int
 		data  []byte
@@ -683,7 +693,7 @@ func FetchWithParallelRangeRequests(client *http.Client, rawURL string, cfg *Fet
 	// to that ceiling ensures straggler goroutines never block on send
 	// after the receive loop exits early, so they can finish cleanly.
 	resultCh := make(chan chunkResult, numChunks*2)
-	sem := make(chan struct{}, cfg.MaxParallelRequests)
+	sem := make(chan struct{}, maxParallel)
 
 	// Per-chunk launch timestamps (set when the *initial* attempt starts).
 	// Used to compute elapsed-time-since-launch when deciding whether a
@@ -703,11 +713,12 @@ func FetchWithParallelRangeRequests(client *http.Client, rawURL string, cfg *Fet
 		defer func() { <-sem }()
 
 		start := time.Now()
-		rangeStart := int64(index) * cfg.ChunkSizeBytes
-		rangeEnd := rangeStart + cfg.ChunkSizeBytes - 1
+		rangeStart := int64(index) * chunkSize
+		rangeEnd := rangeStart + chunkSize - 1
 		if rangeEnd >= contentLength {
 			rangeEnd = contentLength - 1
 		}
+		want := rangeEnd - rangeStart + 1
 
 		req, _ := http.NewRequestWithContext(ctx, "GET", rawURL, nil)
 		req.Header.Set("Range", fmt.Sprintf("bytes=%d-%d", rangeStart, rangeEnd))
@@ -724,9 +735,22 @@ func FetchWithParallelRangeRequests(client *http.Client, rawURL string, cfg *Fet
 			return
 		}
 
+		// A 200 means the Range header was ignored and the body is the whole
+		// resource; that is this chunk only when the chunk is the whole resource.
+		if resp.StatusCode == http.StatusOK && want != contentLength {
+			resultCh <- chunkResult{index: index, err: fmt.Errorf("range request answered with 200 (whole body) instead of 206"), hedge: isHedge}
+			return
+		}
+
 		data, err := io.ReadAll(resp.Body)
 		if err != nil {
 			resultCh <- chunkResult{index: index, err: err, hedge: isHedge}
+			return
+		}
+		// Never accept a short (or long) answer: reassembly would silently
+		// return bytes that are not the resource.
+		if int64(len(data)) != want {
+			resultCh <- chunkResult{index: index, err: fmt.Errorf("range request returned %d bytes, want %d", len(data), want), hedge: isHedge}
 			return
 		}
 
@@ -790,8 +814,10 @@ func FetchWithParallelRangeRequests(client *http.Client, rawURL string, cfg *Fet
 
 	// Receive loop. `expected` grows as we launch hedges; we exit when
 	// we have a successful result for every chunk OR when we've drained
-	// every launched goroutine and some chunks are still missing.
-	for chunksRemaining > 0 {
+	// every launched goroutine and some chunks are still missing. Waiting
+	// with nothing in flight would block forever, so `expected > 0` is part
+	// of the loop condition, whatever the last result was.
+	for chunksRemaining > 0 && expected > 0 {
 		cr := <-resultCh
 		expected--
 		if cr.err != nil {
@@ -805,11 +831,6 @@ func FetchWithParallelRangeRequests(client *http.Client, rawURL string, cfg *Fet
 			}
 			if firstErr == nil {
 				firstErr = cr.err
-			}
-			// If no more attempts are in flight for this chunk, account
-			// for the missing result so the loop can exit deterministically.
-			if expected <= 0 && chunksRemaining > 0 {
-				break
 			}
 			continue
 		}
